@@ -1,5 +1,8 @@
 (** * C19 runner: point/vector, segment, triangle and area models on primitive floats against the
-    f64 build, bit for bit (no libm on any of these paths). *)
+    f64 build, bit for bit (no libm on any of these paths).
+    Path tags: kind 0 (vector ops) 1 + op; kind 1 (segments) 100 + 10 * tag of get_intersection_pt + 2 intersect + 1 touches;
+    kind 2 (triangles, incl. Triangle3D::bounds -> [tri_bounds]) 200 + class of test_point, 210 + Err class, 299 panic;
+    kind 3 (areas; op 6 = BBox3D::new + surface_area -> [box_area]) 300 + op. *)
 From G3 Require Import Run.Harness Model.Vec Model.BBox Model.Transform Model.Segment Model.Triangle Model.Areas.
 Local Open Scope float_scope.
 
@@ -62,7 +65,8 @@ Definition tri_out (i : list spec_float) : list K * N :=
      ++ (match tri_new (v_of i 18) (v_of i 21) (v_of i 24) with Ok t2 => [1; b2f (tri_compare t t2)] | _ => [0; 0] end)
      ++ resv (tri_vertex t 0) ++ resv (tri_vertex t 1) ++ resv (tri_vertex t 2) ++ resv (tri_vertex t 3)
      ++ [slength (tri_ab t); slength (tri_bc t); slength (tri_ca t)]
-     ++ [b2f (match tri_segment t 3 with Err _ => true | _ => false end)],
+     ++ [b2f (match tri_segment t 3 with Err _ => true | _ => false end)]
+     ++ v_list (bmin (tri_bounds t)) ++ v_list (bmax (tri_bounds t)),   (* Triangle3D::bounds() *)
      (200 + cls)%N)
   | Err c => ([n2f c], (210 + c)%N)
   | Panic _ => ([99], 299%N)
@@ -78,8 +82,9 @@ Definition area_out (op : N) (i : list spec_float) : list K :=
   | 3 => resa (do z <- cylinder_new_partial (v_of i 0) (v_of i 3) (fl i 6) (fl i 7); cylinder_area dbg z)
   | 4 => resa (do d <- disk_new_detailed dbg (v_of i 3) (fl i 6) (fl i 7) (v_of i 8) (fl i 11); Ok (disk_area d))
   | 5 => resa (do d <- disk_new dbg (v_of i 3) (fl i 6); Ok (disk_area d))
-  | _ => let b := bbox_new (v_of i 0) (v_of i 3) in
-         [bbox_surface_area b; n2f (bbox_max_extent b)] ++ v_list (bmin b) ++ v_list (bmax b)
+  | _ => (* BBox3D::new(a, b) then surface_area(): the named [box_area] of Model/Areas.v (the statement of C19_box_area) *)
+         let b := bbox_new (v_of i 0) (v_of i 3) in
+         [box_area (v_of i 0) (v_of i 3); n2f (bbox_max_extent b)] ++ v_list (bmin b) ++ v_list (bmax b)
   end%N.
 
 (** case = (kind, op, inputs, expected) *)
